@@ -57,7 +57,9 @@ Proof. exact equiv_tables_same_parse. Qed.
 Print Assumptions C07_equiv_tables_same_parse.
 
 (* The class-group style is the dotted style on the normal form plus the load row; the signature styles see a
-   field list only through its normal form, which the rules leave alone. *)
+   field list only through its normal form, which the rules leave alone (for lists without private names: a
+   private Optional parameter without default is kept by the rules — "it can't be left out of the call" — but
+   would be dropped once it carries the default None). *)
 Theorem C07_class_group_table :
   forall (gk : str) (fs : list field),
     norm fs <> [] -> as_class_group gk fs = with_load gk (as_dotted gk (norm fs)).
@@ -66,11 +68,12 @@ Print Assumptions C07_class_group_table.
 
 Theorem C07_signature_rules_normal_form :
   forall (gk : str) (fs : list field),
-    norm fs <> [] -> as_class_group gk fs = as_class_group gk (norm fs) /\ explicit (norm fs) = true.
+    public fs = true -> norm fs <> [] ->
+    as_class_group gk fs = as_class_group gk (norm fs) /\ explicit (norm fs) = true.
 Proof. exact class_group_through_norm. Qed.
 Print Assumptions C07_signature_rules_normal_form.
 
-Theorem C07_norm_idempotent : forall fs, norm (norm fs) = norm fs.
+Theorem C07_norm_idempotent : forall fs, public fs = true -> norm (norm fs) = norm fs.
 Proof. exact norm_idem. Qed.
 Print Assumptions C07_norm_idempotent.
 
